@@ -5,7 +5,7 @@ HERE = os.path.dirname(os.path.dirname(os.path.abspath(__file__)))
 sys.path.insert(0, os.path.join(HERE, "vlib"))
 from props import PROPS
 import glob, importlib.util
-for _f in sorted(glob.glob(os.path.join(HERE, "vlib", "props_d", "*.py"))):
+for _f in sorted(glob.glob(os.path.join(HERE, "vlib", "props_d", "*.py"))) if not os.environ.get("VERIF_NO_PROPS_D") else []:
     _spec = importlib.util.spec_from_file_location("props_d_" + os.path.basename(_f)[:-3], _f)
     _m = importlib.util.module_from_spec(_spec)
     _spec.loader.exec_module(_m)
